@@ -17,9 +17,10 @@ Proof. exact phase_transition_allowed. Qed.
 Print Assumptions C05_phase_transition_allowed.
 
 (* Completed / Failed / Terminated: over EVERY history of requests, pod events,
-   informer syncs, spec updates and faults the phase never changes (cache and
-   API server) and no pod is ever created *)
+   informer deliveries in any order, controller restarts, spec updates and faults the
+   phase never changes (cache and API server) and no pod is ever created *)
 Theorem C05_final_phases_absorbing : forall ops w,
+  Forall same_job ops ->     (* every op except "the job is deleted and re-created under the same name" *)
   is_final (st_phase (v_st w)) = true -> st_phase (w_st w) = st_phase (v_st w) ->
   let w' := run w ops in
   st_phase (v_st w') = st_phase (v_st w) /\ st_phase (w_st w') = st_phase (v_st w) /\
@@ -54,6 +55,7 @@ Proof. exact maxretry_fails. Qed.
 Print Assumptions C05_maxretry_fails.
 
 Theorem C05_version_monotone : forall ops w,
+  Forall same_job ops ->
   st_version (w_st w) <= st_version (v_st w) ->
   st_version (w_st w) <= st_version (w_st (run w ops)) /\
   st_version (w_st (run w ops)) <= st_version (v_st (run w ops)).
@@ -134,6 +136,7 @@ Print Assumptions C05_cache_status_leak_prefix_refuted.
    owned by the spec's tasks, every status update function *)
 Theorem C05_counters_partition_sync : forall w u w' wr,
   sync_job w u [] = (w', false, wr) ->
+  c_vdel (v_ctl w) = false ->       (* the job is not terminating *)
   pg_admitted (v_pg w) = true -> st_phase (v_st w) <> PhNone ->
   v_pods w = w_pods w -> v_st w = w_st w ->
   NoDup (map t_name (s_tasks (v_spec w))) -> NoDup (pod_ids (w_pods w)) ->
